@@ -71,11 +71,37 @@ func vcNew(t *testing.T, nVoters, nNon int) (*vCluster, error) {
 	return c, nil
 }
 
+// vcCloseStore closes a store but does not wait for it for ever: hashicorp/raft's shutdown can
+// block in a replication pipeline whose peer has already gone (seen under heavy machine load).
+// The check is over by then; an abandoned store dies with the test process.
+func vcCloseStore(s *Store, patience time.Duration) bool {
+	done := make(chan struct{})
+	go func() {
+		s.Close(true)
+		close(done)
+	}()
+	select {
+	case <-done:
+		return true
+	case <-time.After(patience):
+		return false
+	}
+}
+
 func (c *vCluster) close() {
+	done := make(chan struct{}, len(c.nodes))
+	k := 0
 	for _, n := range c.nodes {
 		if n.s != nil {
-			n.s.Close(true)
+			k++
+			go func(s *Store) {
+				vcCloseStore(s, 20*time.Second)
+				done <- struct{}{}
+			}(n.s)
 		}
+	}
+	for ; k > 0; k-- {
+		<-done
 	}
 }
 
